@@ -46,7 +46,23 @@ def tbl_seeded():
         note=m.get('note','')
         out.append(f"| seeded/{sid} ({m['property']}) | {m.get('needs','')} | {', '.join(caught) or 'MISSED'}{(' (not by '+', '.join(missed)+')') if missed and caught else ''} {note} | `{esc(sigs[:200])}` |")
     return "\n".join(out)
-gen={'CHECKS':tbl_checks(),'FIXED':tbl_fixed(),'KNOWN':tbl_known(),'SEEDED':tbl_seeded()}
+def seed_stats():
+    import collections
+    rounds=collections.OrderedDict()
+    still=[]
+    for d in sorted(glob.glob(V+'/seeded/*/meta.json')):
+        m=json.load(open(d)); sid=os.path.basename(os.path.dirname(d))
+        r='1' if '-' not in sid else sid.split('-')[1]
+        st=rounds.setdefault(r,[0,0,0])
+        st[0]+=1
+        if 'initially MISSED' in m.get('note',''): st[1]+=1
+        if not any(v.get('caught') for v in (m.get('checks') or {}).values()): st[2]+=1; still.append(sid)
+    out=["| round | seeded changes confirmed | caught at once | missed first, caught after the check was extended | not caught |","|---|---|---|---|---|"]
+    for r,st in sorted(rounds.items()):
+        out.append(f"| {r} | {st[0]} | {st[0]-st[1]-st[2]} | {st[1]} | {st[2]} |")
+    if still: out.append("\nNot caught at the time of writing: "+", ".join(still)+".")
+    return "\n".join(out)
+gen={'CHECKS':tbl_checks(),'FIXED':tbl_fixed(),'KNOWN':tbl_known(),'SEEDED':tbl_seeded(),'SEEDSTATS':seed_stats()}
 s=open(V+'/DESIGN.md').read()
 for k,v in gen.items():
     s=re.sub(rf'(<!-- GEN:{k} -->).*?(<!-- /GEN:{k} -->)', lambda m: m.group(1)+"\n"+v+"\n"+m.group(2), s, flags=re.S)
